@@ -102,6 +102,7 @@ type StepSpec struct {
 	OutText       string   `json:"outText,omitempty"` // exact stdout text (C11)
 	Args          []string `json:"args,omitempty"`    // extra argv after the step id (raw YAML command text)
 	Script        string   `json:"script,omitempty"`
+	BgMs          int      `json:"bgMs,omitempty"`   // the command leaves a background process in its process group that holds its output open for this long (a daemonising script)
 	Direct        bool     `json:"direct,omitempty"` // in-process executor that calls Write on the given writers (like http/jq/mail)
 }
 
@@ -290,6 +291,7 @@ type SigRec struct {
 
 // Truth collects ground-truth step executions of one world.
 type Truth struct {
+	Bg      []*StepRun // background processes left behind by step commands (BgMs)
 	Runs    []*StepRun
 	byPid   map[int]*StepRun
 	counter map[string]int
@@ -414,6 +416,16 @@ func (tr *Truth) StepProgram(pc *simexec.ProcCtx) int {
 			return finish(141) // EPIPE: as if killed by SIGPIPE
 		}
 	}
+	if spec != nil && spec.BgMs > 0 {
+		// like `sh -c 'worker & echo started'`: the background process stays in the step's process group and
+		// keeps the step's output open after the command itself has exited
+		simexec.Register(w, "/sim/bin/simbg", tr.BgProgram)
+		bg := simexec.Command("/sim/bin/simbg", name, fmt.Sprint(spec.BgMs))
+		bg.Stdout, bg.Stderr = pc.Stdout, pc.Stderr
+		if err := bg.Start(); err == nil {
+			w.Probe("step_left_background_process")
+		}
+	}
 	if dur > 0 {
 		t := time.NewTimer(dur)
 		simrt.Yield()
@@ -430,6 +442,37 @@ func (tr *Truth) StepProgram(pc *simexec.ProcCtx) int {
 		}
 	}
 	return finish(code)
+}
+
+// BgProgram is the body of a background process left behind by a step command: it sleeps, and dies on
+// any signal whose default action is to terminate.
+func (tr *Truth) BgProgram(pc *simexec.ProcCtx) int {
+	w, p := pc.W, pc.Proc
+	name, ms := "?", 1000
+	if len(pc.Args) > 2 {
+		name = pc.Args[1]
+		fmt.Sscan(pc.Args[2], &ms)
+	}
+	run := &StepRun{Name: name, Pid: p.Pid, AgentPid: p.PPid}
+	simrt.Big.Lock()
+	tr.Bg = append(tr.Bg, run)
+	tr.byPid[p.Pid] = run
+	simrt.Big.Unlock()
+	run.StartAt = w.Now()
+	run.StartSeq = w.Emit("bg_start", name, "", int64(p.Pid), nil)
+	p.OnSignal = func(sig int) bool {
+		run.Signals = append(run.Signals, SigRec{Sig: fmt.Sprintf("SIG%d", sig), Seq: w.Seq(), At: w.Now()})
+		return false
+	}
+	t := time.NewTimer(time.Duration(ms) * time.Millisecond)
+	simrt.Yield()
+	select {
+	case <-t.C:
+		simrt.Woke()
+	case <-simrt.Dead():
+		simrt.Die()
+	}
+	return 0
 }
 
 func (tr *Truth) emitOutput(pc *simexec.ProcCtx, spec *StepSpec, run *StepRun) error {
